@@ -391,6 +391,17 @@ func c19NewWorld(r *hx.Run) *c19World {
 	w.roots["intel"] = c19MustWrite(filepath.Join(dir, "intel.pem"), intel)
 	w.roots["gen"] = c19MustWrite(filepath.Join(dir, "gen.pem"), genPem)
 	w.roots["other"] = c19MustWrite(filepath.Join(dir, "other.pem"), other)
+	// bundles holding TWO certificates: the unrelated root first, the one a quote needs second (and the other order)
+	for _, need := range []struct {
+		name string
+		pem  []byte
+	}{{"intel", intel}, {"gen", genPem}} {
+		nl := func(b []byte) []byte { return append(bytes.TrimRight(append([]byte{}, b...), "\n"), '\n') } // every block ends its line
+		w.roots["other+"+need.name] = c19MustWrite(filepath.Join(dir, "other+"+need.name+".pem"), append(nl(other), nl(need.pem)...))
+		w.roots[need.name+"+other"] = c19MustWrite(filepath.Join(dir, need.name+"+other.pem"), append(nl(need.pem), nl(other)...))
+		w.pems["other+"+need.name] = string(nl(other)) + string(nl(need.pem))
+		w.pems[need.name+"+other"] = string(nl(need.pem)) + string(nl(other))
+	}
 	w.roots["garbage"] = c19MustWrite(filepath.Join(dir, "garbage.pem"), []byte("-----BEGIN NOTHING-----\nnot a certificate\n"))
 	w.roots["missing"] = filepath.Join(dir, "does-not-exist.pem")
 	w.pems["intel"], w.pems["gen"], w.pems["other"], w.pems["garbage"] = string(intel), string(genPem), string(other), "no certificate here"
@@ -746,6 +757,12 @@ func (w *c19World) flagChoice(f c19Field, class string, ref *pb.QuoteV4) c19Choi
 			c.given, c.arg, c.v, c.tok = true, fmt.Sprintf("0x%x", m.n), m, fmt.Sprint(m.n)
 		case "Mbin":
 			c.given, c.arg, c.v, c.tok = true, fmt.Sprintf("0b%b", m.n), m, fmt.Sprint(m.n)
+		case "Mlead0": // decimal digits with a leading zero are still decimal (README: 0x / 0o / 0b prefixes select the other bases)
+			c.given, c.arg, c.v, c.tok = true, "0"+fmt.Sprint(m.n), m, fmt.Sprint(m.n)
+		case "Xlead0":
+			c.given, c.arg, c.v, c.tok = true, "00"+fmt.Sprint(m.n+1), fval{n: m.n + 1}, fmt.Sprint(m.n+1)
+		case "under": // digit separators are not numbers here
+			c.given, c.arg, c.malformed, c.tok = true, "1_0", true, "bad"
 		case "X":
 			c.given, c.arg, c.v, c.tok = true, fmt.Sprint(m.n+1), fval{n: m.n + 1}, fmt.Sprint(m.n+1)
 		case "zero":
@@ -833,8 +850,13 @@ func (w *c19World) build(p *c19Plan, idx int) {
 		out := make([]string, len(toks))
 		for i, t := range toks {
 			out[i] = t
-			if t == "good" {
+			switch t {
+			case "good":
 				out[i] = good
+			case "other+good":
+				out[i] = "other+" + good
+			case "good+other":
+				out[i] = good + "+other"
 			}
 		}
 		return out
@@ -1362,9 +1384,9 @@ func c19Dims() []c19Dim {
 		{"in", []string{"file", "stdin", "missing", "badinform"}, 2},
 		{"quiet", []string{"0", "1"}, 2},
 		{"verbose", []string{"0", "2"}, 2},
-		{"c.paths", []string{"-", "good", "good,other", "other", "garbage", "missing"}, 3},
-		{"c.bundles", []string{"-", "good", "garbage"}, 2},
-		{"f.roots", []string{"-", "good", "E", "other,good", "other", "garbage", "missing"}, 4},
+		{"c.paths", []string{"-", "good", "good,other", "other", "garbage", "missing", "other+good", "good+other"}, 3},
+		{"c.bundles", []string{"-", "good", "garbage", "other+good"}, 2},
+		{"f.roots", []string{"-", "good", "E", "other,good", "other", "garbage", "missing", "other+good", "good+other"}, 4},
 		{"c.crl", []string{"0", "1"}, 1},
 		{"c.gc", []string{"0", "1"}, 1},
 		{"f.crl", []string{"-", "false", "E", "true", "bad"}, 3},
@@ -1374,7 +1396,7 @@ func c19Dims() []c19Dim {
 		switch f.kind {
 		case "num":
 			d = append(d, c19Dim{"c." + f.key, []string{"-", "M", "X", "big"}, 2})
-			d = append(d, c19Dim{"f." + f.key, []string{"-", "M", "Mhex", "E", "Mbin", "zero", "X", "big", "huge", "neg", "Z"}, 6})
+			d = append(d, c19Dim{"f." + f.key, []string{"-", "M", "Mhex", "E", "Mbin", "zero", "X", "big", "huge", "neg", "Z", "Mlead0", "Xlead0", "under"}, 6})
 		case "bytes":
 			cv := []string{"-", "M", "X", "short", "long"}
 			if f.key == "mintee" {
